@@ -149,7 +149,8 @@ def install_gt(I, record):
     I.add_intercept(B + r"Fq12::multiply\(.*Fq12 const&, .*Fq12 const&\)", lambda I_, n, a, s: (record.append(("multiply",)), wr(a[0], rd(a[1]) + rd(a[2])))[1], "multiply")
 
 
-def ob_gt_loop():
+def ob_gt_loop(alias=False):
+    """alias: the output object is the base object (x.exponentiate_gt(x, s)); the accumulator then overwrites the base, which the loop must not read"""
     P = prog()
     fname = P.find1(B + r"Fq12::exponentiate_gt\(" + B + r"Fq12 const&, " + B + r"PowersOfX const&\)")
     I = eir.Interp(P)
@@ -201,7 +202,7 @@ def ob_gt_loop():
         state.clear()
         bits.clear()
         this = Obj("this", 576, "arg", 16)
-        a = Obj("a", 576, "arg", 16, True)
+        a = this if alias else Obj("a", 576, "arg", 16, True)
         a.cells[0] = (576, Pow(1))
         sc = Obj("scalar", 64, "arg", 16, True)
         state["this"], state["scalar"] = this, sc
@@ -262,7 +263,7 @@ def ob_gt_loop():
     return {"queries": nq, "paths": npaths, "functions": [P.demangled[fname][:100]], "sample": "one inductive step, %d paths over (found_one, 4 bits, i == 0)" % npaths}
 
 
-def ob_gt_bases():
+def ob_gt_bases(alias=False):
     """the prologue: t[j] = a^(|x|^j) (exponents modulo r), read at the first arrival at the loop header"""
     P = prog()
     fname = P.find1(B + r"Fq12::exponentiate_gt\(" + B + r"Fq12 const&, " + B + r"PowersOfX const&\)")
@@ -280,7 +281,7 @@ def ob_gt_bases():
         raise eir.LoopCut(cut.fn, cut.header, None, regs)
     cut.on_entry = on_entry
     this = Obj("this", 576, "arg", 16)
-    a = Obj("a", 576, "arg", 16, True)
+    a = this if alias else Obj("a", 576, "arg", 16, True)
     a.cells[0] = (576, Pow(1))
     sc = Obj("scalar", 64, "arg", 16, True)
     try:
